@@ -78,8 +78,12 @@ def make_case(seedt, tier, cuda):
         Ls = L_QUICK if tier == "quick" else L_THOROUGH
         L = int(rng.choice(Ls))
         K = int(rng.choice(K_SET))
+        if rng.random() < 0.04:
+            # more segments than the NumPy fallbacks' internal chunk sizes (8192/16384/32768)
+            K = int(rng.choice([8193, 16385, 32769, 40000]))
+            L = int(rng.choice([1, 2, 3, 5, 8, 16]))
         cap = 3_000_000 if tier == "quick" else 30_000_000
-        while K * L > cap:
+        while K * L > cap and K in K_SET:
             K = K_SET[max(0, K_SET.index(K) - 1)]
     c = {
         "kind": "kernel", "seed": list(seedt), "tier": tier, "cuda": bool(cuda),
